@@ -358,3 +358,89 @@ def dag_d_separated(nodes, edges, a, b, C):
         pm[v].add(u)
         cm[u].add(v)
     return b not in bayes_ball(pm, cm, a, set(C))
+
+
+# ---------------------------------------------------------------------------------------
+# typed-path analysis (used by C20's finding predicates)
+
+
+def typed_paths(ref: RG, a, b, max_paths=20000):
+    """All simple paths a..b in the skeleton, with every choice of edge among parallel ones.
+    Yields (nodes, marks) where marks[i] = (mark_at_nodes[i], mark_at_nodes[i+1]) with
+    '>' meaning arrowhead at that end and '-' meaning tail."""
+    adj: dict = {v: {} for v in ref.V}
+    for u, v in ref.D:
+        adj[u].setdefault(v, []).append(("-", ">"))
+        adj[v].setdefault(u, []).append((">", "-"))
+    for e in ref.B:
+        e = list(e)
+        if len(e) == 2:
+            adj[e[0]].setdefault(e[1], []).append((">", ">"))
+            adj[e[1]].setdefault(e[0], []).append((">", ">"))
+    count = 0
+
+    def rec(path, marks):
+        nonlocal count
+        x = path[-1]
+        if x == b:
+            count += 1
+            yield list(path), list(marks)
+            return
+        for y, kinds in adj[x].items():
+            if y in path:
+                continue
+            for k in kinds:
+                if count > max_paths:
+                    return
+                path.append(y)
+                marks.append(k)
+                yield from rec(path, marks)
+                path.pop()
+                marks.pop()
+
+    yield from rec([a], [])
+
+
+def analyse_connection(ref: RG, a, b, C):
+    """-> dict(connected, plain, plain_if_bow_fixed) where a path is *plain* when y0's
+    sigma-separation shortcut is able to see it (see DESIGN §4 C20)."""
+    C = set(C)
+    anC = ref.ancestors_inclusive(C)
+    bows = {(u, v) for (u, v) in ref.D if frozenset((u, v)) in ref.B}
+    connected = plain = plain_bowfixed = False
+    for nodes, marks in typed_paths(ref, a, b):
+        ok = True
+        is_plain = True
+        is_plain_bf = True
+        for i in range(1, len(nodes) - 1):
+            m = nodes[i]
+            head_in = marks[i - 1][1] == ">"
+            head_out = marks[i][0] == ">"
+            if head_in and head_out:  # collider
+                if m not in anC:
+                    ok = False
+                    break
+                if m in C:
+                    continue
+                kids = [c for c in ref.ch(m) if c in C]
+                if not kids:
+                    is_plain = is_plain_bf = False
+                elif not any((m, c) not in bows for c in kids):
+                    is_plain = False
+            else:
+                if m in C:
+                    ok = False
+                    break
+                # tails at m must not be bows
+                if not head_in and (m, nodes[i - 1]) in bows:
+                    is_plain = False
+                if not head_out and (m, nodes[i + 1]) in bows:
+                    is_plain = False
+        if not ok:
+            continue
+        connected = True
+        plain = plain or is_plain
+        plain_bowfixed = plain_bowfixed or is_plain_bf
+        if plain:
+            break
+    return {"connected": connected, "plain": plain, "plain_if_bow_fixed": plain_bowfixed}
